@@ -117,6 +117,18 @@ def parseFloat? (s : String) : Option Float := do
            else Float.ofScientific mant true e10.natAbs
   some (if neg then -v else v)
 
+/-- Fortran-style real literal (`1.2-4`, `1d3`, `-.5E+2`) → Float: `d` is an exponent marker and a
+sign that follows a digit or the point starts a bare exponent -/
+def parseFortran? (s : String) : Option Float :=
+  let cs := s.trimAscii.toString.toList.map Char.toLower
+  let cs := cs.map fun c => if c == 'd' then 'e' else c
+  let rec ins : List Char → Char → Nat → List Char
+    | [], _, _ => []
+    | c :: r, prev, i =>
+        if (c == '+' || c == '-') && i != 0 && prev != 'e' then 'e' :: c :: ins r c (i + 1)
+        else c :: ins r c (i + 1)
+  parseFloat? (String.ofList (ins cs ' ' 0))
+
 def parseInt? (s : String) : Option Int := s.toInt?
 
 def hexVal (c : Char) : Option Nat :=
